@@ -249,3 +249,22 @@ def run_cost_exact(sp, d, tg, i, p, v, a, j, s):
     dot = lambda x, y: sum(m * n for m, n in zip(x, y))
     return (f['kp'] * dot(p, p) + f['kv'] * dot(v, v) + f['ka'] * dot(a, a) + f['kj'] * dot(j, j) + f['ks'] * dot(s, s)
             + f['kx'] * (dot(p, v) + a[0] * s[L] + j[0] * p[L]) + f['kt'] * (tg * (p[0] + tg)) + f['ki'] * (i + 1) * (v[0] * a[L]))
+
+
+def from_desc(d, k=0):
+    """rebuild a case from its `describe()` form (replay files, /verif/corpus)"""
+    c = OptCase(d['order'], d['dim'], d['N'], d['time_map'][0], d['spatial_map'][0], d['time_map'][1], d['spatial_map'][1],
+                d['flag_bits'], d['rho'], d['steps'], d['t0'], d['h'], d['P'], d['bc'], dict(d['cost_spec']), k=k)
+    c.x = list(d['x'])
+    return c
+
+
+def corpus(pid):
+    """minimised past failures and false alarms of a property, kept under /verif/corpus/<pid>-*.json; they run first"""
+    import os, glob, json
+    root = os.path.join(os.path.dirname(os.path.dirname(os.path.abspath(__file__))), 'corpus')
+    out = []
+    for f in sorted(glob.glob(os.path.join(root, pid + '-*.json'))):
+        j = json.load(open(f))
+        out.extend(j['cases'])
+    return out
